@@ -108,7 +108,7 @@ def check(case):
                     res.fail('kf', 'kf-defeated|' + base, 'defeated %d has keep factor %s at action %d (%s)' % (c, kf, i, a['msg']))
                     bad = True
                 elif s['state'] == 'elected':
-                    if kf is None or not 0 < kf <= 1:
+                    if kf is None or not (0 < kf and ar.le(kf, Fraction(1))):     # guarded: "<= 1" by the arithmetic's own law
                         res.fail('kf', 'kf-elected|' + base, 'elected %d has keep factor %s at action %d (%s)' % (c, kf, i, a['msg']))
                         bad = True
                     elif kf < 1:
